@@ -78,6 +78,7 @@ def plan(tier, seed):
     specs.append({'kind': 'corpus', 'mut': 4 if tier == 'quick' else 30})
     for s in range(6):
         specs.append({'kind': 'typed', 'tshard': s, 'tshards': 6})
+    specs.append({'kind': 'wildmsg'})
     for limit in (5, 50, 200, 1000):
         for lazy in (False, True):
             specs.append({'kind': 'depth', 'limit': limit, 'lazy': lazy, 'no_cov': limit > 200})
@@ -300,6 +301,45 @@ def run_typed(spec, res):
                     res.nontrivial.add(env.h8(('typed', t, role, vclass)))
                     res.count('typed_roles')
                     drive(sent, xmlschema, schema, lambda: text, case)
+
+
+def run_wildmsg(spec, res):
+    """Content-model failures where a wildcard is among the expected particles: the message of the error is built from the
+    wildcard's namespace constraint, whatever that is (a list, ##other, an empty list, notNamespace, notQName)."""
+    xmlschema = env.activate_repo()
+    sent = Sentinel(xmlschema, res)
+    T = 'urn:vk:wm'
+    cons10 = ['namespace="##any"', 'namespace="##other"', 'namespace="##local"', 'namespace="##targetNamespace"',
+              'namespace="urn:x urn:y"', 'namespace=""', 'namespace="##local urn:x"']
+    cons11 = ['notNamespace="urn:x"', 'notNamespace="##local ##targetNamespace"', 'notNamespace="##local ##targetNamespace urn:x"',
+              'namespace="##any" notQName="t:a x:b"', 'notQName="##defined"', 'namespace="##other" notQName="##definedSibling"']
+    bodies = ['<t:a/>', '', '<t:a/><x:b xmlns:x="urn:x"/>', '<t:a/><n/>', '<t:a/><t:zz/>', '<x:b xmlns:x="urn:x"/>',
+              '<t:a/><q:c xmlns:q="urn:q"/><q:c xmlns:q="urn:q"/><q:c xmlns:q="urn:q"/><q:c xmlns:q="urn:q"/>']
+    for version, cls, cons in (('1.0', xmlschema.XMLSchema10, cons10), ('1.1', xmlschema.XMLSchema11, cons10 + cons11)):
+        for con in cons:
+            for pc in ('strict', 'lax', 'skip'):
+                for shape in ('seq', 'choice', 'counted', 'all'):
+                    any_ = f'<xs:any {con} processContents="{pc}"'
+                    model = {'seq': f'<xs:sequence><xs:element name="a"/>{any_}/></xs:sequence>',
+                             'choice': f'<xs:sequence><xs:element name="a"/><xs:choice>{any_}/><xs:element name="c"/></xs:choice></xs:sequence>',
+                             'counted': f'<xs:sequence><xs:element name="a"/>{any_} minOccurs="2" maxOccurs="3"/></xs:sequence>',
+                             'all': f'<xs:all><xs:element name="a"/>{any_}/></xs:all>'}[shape]
+                    if shape == 'all' and version == '1.0':
+                        continue
+                    xsd = (f'<xs:schema xmlns:xs="{D.XS}" xmlns:t="{T}" xmlns:x="urn:x" targetNamespace="{T}" elementFormDefault="qualified">'
+                           f'<xs:element name="r"><xs:complexType>{model}</xs:complexType></xs:element>'
+                           f'<xs:element name="zz" type="xs:int"/></xs:schema>')
+                    try:
+                        schema = cls(xsd)
+                    except xmlschema.XMLSchemaException:
+                        res.count('wildmsg:schema_refused')
+                        continue
+                    for body in bodies:
+                        text = f'<t:r xmlns:t="{T}">{body}</t:r>'
+                        case = {'wildmsg': True, 'version': version, 'xsd': xsd, 'doc': text, 'constraint': con, 'shape': shape}
+                        res.nontrivial.add(env.h8(('wildmsg', version, con, pc, shape, body)))
+                        res.count('wildmsg:cases')
+                        drive(sent, xmlschema, schema, lambda: text, case)
 
 
 def xml_escape(v):
@@ -539,7 +579,7 @@ def run_elements(spec, res):
 
 
 def run_shard(spec, res):
-    {'fuzz': run_fuzz, 'typed': run_typed, 'bytes': run_bytes, 'corpus': run_corpus, 'depth': run_depth, 'elements': run_elements}[spec['kind']](spec, res)
+    {'fuzz': run_fuzz, 'typed': run_typed, 'wildmsg': run_wildmsg, 'bytes': run_bytes, 'corpus': run_corpus, 'depth': run_depth, 'elements': run_elements}[spec['kind']](spec, res)
 
 
 def finalize(res, tier):
@@ -570,6 +610,9 @@ def replay(case):
                 blob = bytes.fromhex(case['hex'])
                 drive(sent, xmlschema, C.schema_for(entry), lambda: blob, case)
                 break
+    elif case.get('wildmsg'):
+        cls = xmlschema.XMLSchema11 if case.get('version') == '1.1' else xmlschema.XMLSchema10
+        drive(sent, xmlschema, cls(case['xsd']), lambda: case['doc'], case)
     elif case.get('typed'):
         cls = xmlschema.XMLSchema11 if case.get('version') == '1.1' else xmlschema.XMLSchema10
         drive(sent, xmlschema, cls(typed_xsd()), lambda: case['doc'], case)
